@@ -140,23 +140,27 @@ _INT_SHIFT = st.one_of(st.integers(-6, -1), st.just(-1))
 
 
 @st.composite
-def _change_case(draw):
-    fn = draw(st.sampled_from(CHANGE_FUNCS))
-    f = draw(st.sampled_from(refcal.ALL))
+def _change_case(draw, daily_keyword=False):
+    fn = draw(st.sampled_from(FLEX if daily_keyword else CHANGE_FUNCS))
+    f = 365 if daily_keyword else draw(st.sampled_from(refcal.ALL))
     narrow = f == 365 and fn in ("apct", "aroc")      # keep (x_t/x_s)**365 finite
     x = draw(rs.series_desc(freq=f, min_len=1, max_len=28 if f != 365 else 40, positive=fn in NEEDS_POSITIVE, margin_years=5,
                             plo=1.0 if narrow else 0.25, hi=1.05 if narrow else 5.0))
     if fn in FLEX:
-        if f != 0 and draw(st.integers(0, 2)) == 0:
+        if daily_keyword or (f != 0 and draw(st.integers(0, 2)) == 0):
             shift = draw(st.sampled_from(["yoy", "soy", "eopy", "tty"]))
         else:
             shift = draw(_INT_SHIFT)
     else:
         shift = None
-    if f == 365 and shift in ("yoy", "soy", "eopy", "tty") and draw(st.booleans()):
+    if f == 365 and shift in ("yoy", "soy", "eopy", "tty") and (daily_keyword or draw(st.booleans())):
         # place the series around a year boundary so that keyword shifts bite
         import datetime as dt
         y = dt.date.fromordinal(x["start"]["o"]).year
+        if draw(st.booleans()):
+            y -= (y + 1) % 4          # the series runs into a year divisible by four (leap years: 366 days back is not 365)
+        elif draw(st.booleans()):
+            y -= y % 4                # ... or starts at the end of one
         x["start"] = {"f": 365, "o": dt.date(y, 12, 31).toordinal() - draw(st.integers(0, 20))}
     form = draw(st.sampled_from(["method", "function"]))
     return {"x": x, "fn": fn, "shift": shift, "form": form}
@@ -416,6 +420,7 @@ def _check_cum(case):
 
 SUBCHECKS = [
     HypSub("changes", _change_case, _check_change, _classify_change, budget={"quick": 2500, "thorough": 60000}),
+    HypSub("changes_daily_keyword", lambda: _change_case(daily_keyword=True), _check_change, _classify_change, budget={"quick": 500, "thorough": 12000}),
     HypSub("helpers", _helper_case, _check_helper, _classify_helper, budget={"quick": 600, "thorough": 10000}),
     HypSub("cumulation", _cum_case, _check_cum, _classify_cum, budget={"quick": 2500, "thorough": 60000}),
 ]
